@@ -136,6 +136,18 @@ pub fn eq_complex(self_: &TL, rhs: &TL, flags: &Flags) -> (r: bool)
 {render(b, 1)}
 }}
 
+//@ KF C02.compat.shared-lists-invariant
+// lists are SHARED, not copied: `zs: [str...] = e` makes `zs` an alias of `e`, and what is later pushed through `zs` is seen through `e` and through
+// every other alias.  For that to be sound an accepted list type must admit exactly the values the supplied one does (invariance) -- the same
+// statement with the inclusion the other way round.  Known finding D99: the empty fixed shape `[]` is accepted as `[T...]` for every T.
+pub fn eq_complex_shared(self_: &TL, rhs: &TL, flags: &Flags) -> (r: bool)
+    ensures
+        (r && plain(*flags) && closed(*self_) && closed(*rhs) && no_nil_slot(*self_) && strip(*rhs) is List) ==> subset(*rhs, *self_),
+{{
+    broadcast use meaning, induction_hypothesis;
+{render(b, 1)}
+}}
+
 //@ OBL C16.compat.components-once
 // the same text: the components of two lists / two present optionals are compared ONCE per level
 pub fn eq_complex_cost(self_: &TL, rhs: &TL, flags: &Flags) -> (r: bool)
@@ -175,7 +187,8 @@ pub proof fn lemma_coerce_sound(ts: Vec<TL>, f: Flags, open: TL)
 }} // verus!
 fn main() {{}}
 """.replace("self.disregard_distractors", "self_.disregard_distractors")
-    return gen, [Obl("C16.compat.components-once", ["C16"], fn="TypeLayout::eq_complex", desc="cost discipline: `==` is only asked of a pair whose arm does not descend into the components -- two lists / two present optionals are compared by their arm alone, once per level (D88: 2^depth)"),
+    return gen, [Obl("C02.compat.shared-lists-invariant", ["C02"], kind="kf", finding="D99", fn="TypeLayout::eq_complex", desc="lists are shared between aliases: an accepted list type admits exactly the values of the supplied one -- known finding D99: the empty fixed shape `[]` is accepted as `[T...]` for every T (and `[T...]` as `[T?...]`), so two aliases of one list can have different element types"),
+                 Obl("C16.compat.components-once", ["C16"], fn="TypeLayout::eq_complex", desc="cost discipline: `==` is only asked of a pair whose arm does not descend into the components -- two lists / two present optionals are compared by their arm alone, once per level (D88: 2^depth)"),
                  Obl("C02.coerce.sound", ["C02"], fn="ListType::try_coerce_to_open (lemma over its contract)", desc="a fixed-shape list that try_coerce_to_open accepts as `[T...]` only holds T values: every value of the fixed-shape type is a value of `[T...]` (lemma over C02.coerce.open and the induction hypothesis)"),
                  Obl("C02.compat.sound", ["C02", "C12"], fn="TypeLayout::eq_complex", desc="eq_complex answers true only if every run-time value of the supplied type is a value of the expected type (inductive step over every arm, in match order; closed types, plain flags, expected type without a literal-nil slot)")], log
 
